@@ -249,6 +249,9 @@ pub struct Pcap {
     pub header: RefCell<PcapGlobalHeader>,
     #[allow(unused)]
     ts_format: PcapTsFormat,
+    // set once a record header was found invalid: the reader has lost
+    // the record boundaries and must not deliver anything after that
+    damaged: std::cell::Cell<bool>,
 }
 
 impl fmt::Display for Pcap {
@@ -388,6 +391,7 @@ impl Pcap {
             file,
             header: RefCell::new(global_header),
             ts_format,
+            damaged: std::cell::Cell::new(false),
         })
     }
 
@@ -415,6 +419,7 @@ impl Pcap {
             file,
             header: RefCell::new(global_header),
             ts_format: PcapTsFormat::MicroSeconds,
+            damaged: std::cell::Cell::new(false),
         })
     }
 
@@ -425,6 +430,12 @@ impl Pcap {
     /// Read next packet from a pcap file
     pub fn next_packet(&self) -> io::Result<Rc<PcapPacket>> {
         let mut packet_header_data = [0u8; 16]; // Size of pcap packet header
+        if self.damaged.get() {
+            return Err(io::Error::new(
+                io::ErrorKind::InvalidData,
+                "Invalid caplen value exceeds snaplen",
+            ));
+        }
 
         match self.file.as_ref() {
             FileHandle::Reader(reader) => {
@@ -433,6 +444,7 @@ impl Pcap {
 
                 // Check if caplen is greater than the snaplen to avoid potential issues
                 if packet_header.caplen > self.header.borrow().snaplen {
+                    self.damaged.set(true);
                     return Err(io::Error::new(
                         io::ErrorKind::InvalidData,
                         "Invalid caplen value exceeds snaplen",
@@ -456,6 +468,7 @@ impl Pcap {
                 let packet_header = PcapPacketHeader::from_bytes(&packet_header_data)?;
                 // Check if caplen is greater than the snaplen to avoid potential issues
                 if packet_header.caplen > self.header.borrow().snaplen {
+                    self.damaged.set(true);
                     return Err(io::Error::new(
                         io::ErrorKind::InvalidData,
                         "Invalid caplen value exceeds snaplen",
